@@ -156,8 +156,9 @@ Grow(prev, a) == prev + (prev \div (2 ^ (a + 1)))
 UserTry(t, prev, keep) ==
   LET Try[a \in 0..11] ==
         LET nl == IF keep THEN prev ELSE Grow(prev, a)
-            ex == (nl - prev) * LWord(t) IN
-        IF ~StackFull(ex) /\ (LEGACY \/ keep \/ nl > prev) THEN <<TRUE, nl, ex>>
+            ex == (nl - prev) * LWord(t)
+            need == IF LEGACY \/ t # UCOL THEN ex ELSE ex + (nl - prev) * LIW IN      \* repaired code: UCOL also reserves USUB's growth
+        IF ~StackFull(need) /\ (LEGACY \/ keep \/ nl > prev) THEN <<TRUE, nl, ex>>
         ELSE IF keep \/ a >= 10 \/ (~LEGACY /\ nl <= prev) THEN <<FALSE, 0, 0>>
         ELSE Try[a + 1]
   IN Try[0]
@@ -172,8 +173,8 @@ XpandUser(t) ==
   ELSE /\ cap' = [cap EXCEPT ![t] = r[2]]
        /\ IF t # USUB
           THEN /\ mem' = [x \in Types |-> IF x > t THEN mem[x] + ex ELSE mem[x]]
-               /\ top1' = top1 + ex + (IF t = UCOL THEN ex ELSE 0)
-               /\ used' = used + ex + (IF t = UCOL THEN ex ELSE 0)
+               /\ top1' = top1 + ex + (IF t = UCOL THEN (IF LEGACY THEN ex ELSE (r[2] - prev) * LIW) ELSE 0)
+               /\ used' = used + ex + (IF t = UCOL THEN (IF LEGACY THEN ex ELSE (r[2] - prev) * LIW) ELSE 0)
           ELSE UNCHANGED <<mem, top1, used>>
        /\ numexp' = numexp + 1
        /\ nzlu' = IF t = LUSUP THEN r[2] ELSE nzlu
@@ -275,7 +276,7 @@ RegionsOK == Running =>
   /\ user => /\ mem[LUSUP] >= 0
              /\ \A t \in {LUSUP, UCOL, LSUB} : mem[t] + cap[t] * LWord(t) <= mem[t + 1]
              /\ mem[USUB] + cap[USUB] * LWord(USUB) <= top1
-             /\ \A t \in {LUSUP, UCOL} : ~Misaligned(mem[t])
+             /\ \A t \in {LUSUP, UCOL} : ((mem[t] + align) % (IF DW >= 8 THEN 8 ELSE 4)) = 0      \* values aligned to their own size
   /\ cap[LUSUP] = nzlu /\ cap[LSUB] = nzl /\ cap[UCOL] = nzu /\ cap[USUB] = nzu
 WorkOK == (pc = "factor" /\ pend = <<>> /\ user) => /\ iwork # NULL /\ dwork # NULL
                                      /\ top2 <= dwork /\ dwork + DSize <= iwork /\ iwork + ISize <= size
